@@ -45,6 +45,11 @@ def build_space(tier):
         for s in shapes.contexts(t, offsets, tails=(True,)):
             transitions += 1
             structs.append(s)
+        if shapes.type_depth(t) == 0:
+            # leaf shapes also as the LAST field (byte-aligned and at offset 3): padding after it must stay zero
+            for s in shapes.contexts(t, (0, 3), tails=(False,)):
+                transitions += 1
+                structs.append(s)
     for s in shapes.field_sequences(shapes.REP12, 2):
         transitions += 1
         structs.append(s)
